@@ -101,6 +101,34 @@ def tcpNext (stream : Bytes) : Option (Bytes × Bytes) :=
       else some (b0 :: b1 :: l0 :: l1 :: rest.take (16 + rd16 l0 l1), rest.drop (16 + rd16 l0 l1))
   | _ => none
 
+/-- `TurnClient::recv` over TCP with the caller's buffer of `bufLen` bytes (the runner uses 1500): the 4-byte
+header is consumed first; a message whose on-the-wire size exceeds the buffer is an error (`tooBig`; the stream
+is out of sync afterwards and the runner's read loop ends) -/
+inductive Recv where
+  | msg (m rest : Bytes)
+  | tooBig
+  | needMore
+deriving DecidableEq, Repr
+
+def tcpRecv (bufLen : Nat) (stream : Bytes) : Recv :=
+  match stream with
+  | b0 :: b1 :: l0 :: l1 :: rest =>
+    let body := rd16 l0 l1
+    let len := if isChannelByte b0 then 4 + body else 20 + body
+    let onWire := if isChannelByte b0 then 4 + (body + 3) / 4 * 4 else 20 + body      -- `body.div_ceil(4) * 4`
+    if onWire > bufLen then .tooBig
+    else if rest.length < onWire - 4 then .needMore
+    else .msg (b0 :: b1 :: l0 :: l1 :: rest.take (len - 4)) (rest.drop (onWire - 4))
+  | _ => .needMore
+
+/-- `n` successive `recv` calls -/
+def tcpSplitN : Nat → Bytes → Option (List Bytes × Bytes)
+  | 0, s => some ([], s)
+  | n + 1, s =>
+    match tcpNext s with
+    | some (m, rest) => (tcpSplitN n rest).map (fun r => (m :: r.1, r.2))
+    | none => none
+
 /-- ICE-TCP candidates (RFC 6544 §10.1) do use RFC 4571 framing: `frame_stun_for_tcp` -/
 def rfc4571Frame (data : Bytes) : Bytes := be16 data.length ++ data
 
